@@ -24,7 +24,7 @@ import random
 ID = "C22"
 LEVEL = "exploration"
 IN_PROCESS = False
-CHUNK_TIMEOUT = 900
+CHUNK_TIMEOUT = 2400
 RULE = (
     "real searches (DYNAMOSA/MOSA/WHOLE_SUITE/MIO/RANDOM, 4-8 iterations, 9 tiny SUT modules, BRANCH or BRANCH+LINE) followed by "
     "SIMPLE / MUTATION_ANALYSIS / no assertion generation, minimised with every strategy {CASE, SUITE, COMBINED} x direction "
